@@ -130,6 +130,34 @@ func c19Schemas() []func() *c19Schema {
 			return s
 		},
 		func() *c19Schema {
+			s := &c19Schema{name: "defaults without elements but with spare capacity (arr[:0], make([]T, 0, n)); PostTransforms append"}
+			backing := []string{"B0", "B1", "B2"}
+			def := backing[:0]
+			own(&s.owned, "array the default was sliced from", backing)
+			own(&s.owned, "slice default (len 0, cap 3)", def)
+			sc := z.Slice(z.String()).Default(def).PostTransform(c19MutStrings)
+			inner := make([]int, 0, 4)
+			ndef := [][]int{inner, {1}}
+			own(&s.owned, "nested default with an empty inner list of capacity 4", ndef)
+			nsc := z.Slice(z.Slice(z.Int())).Default(ndef).PostTransform(func(p any, ctx z.Ctx) error {
+				d := p.(*[][]int)
+				for i := range *d {
+					(*d)[i] = append((*d)[i], 99)
+				}
+				return nil
+			})
+			own(&s.objects, "schema object", sc)
+			own(&s.objects, "nested schema object", nsc)
+			s.events = []c19Event{
+				{"Parse(nil) default taken", func() (string, any) { var d []string; m := sc.Parse(nil, &d); return c19Obs(m, d), d }},
+				{"Validate(nil slice) default taken", func() (string, any) { var d []string; m := sc.Validate(&d); return c19Obs(m, d), d }},
+				{"Validate(empty slice) default taken", func() (string, any) { d := []string{}; m := sc.Validate(&d); return c19Obs(m, d), d }},
+				{"nested Parse(nil) default taken", func() (string, any) { var d [][]int; m := nsc.Parse(nil, &d); return c19Obs(m, d), d }},
+				{"nested Validate(nil) default taken", func() (string, any) { var d [][]int; m := nsc.Validate(&d); return c19Obs(m, d), d }},
+			}
+			return s
+		},
+		func() *c19Schema {
 			s := &c19Schema{name: "Slice(Slice(Int)).Default([[1] [2 3]]).PostTransform(mutate inner)"}
 			def := [][]int{{1}, {2, 3}}
 			own(&s.owned, "nested slice default", def)
@@ -515,7 +543,7 @@ func init() {
 		ID:    "C19",
 		Rule:  "one execution = one sequence of ≤depth calls (Parse/Validate, absent/present inputs given as maps, []any, typed slices, structs, pointers) under {stock formatter, stock formatter over templates that mention {{value}}} on ONE schema object whose PostTransforms overwrite and append to their destination; after every call: deep snapshot (incl. hidden capacity) of every value handed to a builder (slice/nested defaults, OneOf lists, Contains params) and of every input is unchanged, the schema object itself (every field at any depth, incl. each test's parameter map) is unchanged, the destination shares no backing array with them, and a repeated call observes exactly what its first occurrence observed; every sequence is non-trivial; distinct = distinct (schema, call sequence). plus " + callsRule + ". plus " + layoutRule,
 		Floor: 20,
-		Bound: func(tier string) string { return fmt.Sprintf("all call sequences of length ≤%d over 11 schema families, every field visit order", c19Depth(tier)) },
+		Bound: func(tier string) string { return fmt.Sprintf("all call sequences of length ≤%d over 12 schema families, every field visit order", c19Depth(tier)) },
 		Assumptions: []string{"mutating callbacks only write through the pointer they are given"},
 		Items: func(tier string) []Item {
 			var items []Item
